@@ -71,7 +71,7 @@ PROPS = {
     'C03': dict(
         gens=dict(
             quick=V1_QUICK + g('stream', v2good=60, v2corrupt=60, v2ctrl=300, v2len=120, mixed=60) + TLV_QUICK
-            + g('builder', bseq=60, rebuild=30, bwire=20) + g('writer', wvals=60, wints=1, wbig=1) + g('format', fmtshapes=60, fmtrand=60)
+            + g('stream', bigtrail=3) + g('builder', bseq=60, rebuild=30, bwire=20) + g('writer', wvals=60, wints=1, wbig=1, wpersist=10) + g('format', fmtshapes=60, fmtrand=60)
             + g('convert', cvrand=66),
             thorough=V1_THOROUGH + V2_THOROUGH + TLV_THOROUGH + g('builder', bseq=3000, rebuild=1000, bwire=500)
             + g('writer', wvals=3000, wints=20, wtlv=2) + g('format', fmtshapes=6561, fmtrand=5000) + g('convert', cvrand=2200)),
@@ -81,16 +81,16 @@ PROPS = {
              'non-trivial = a call into the crate on a non-empty input; distinct = distinct inputs',
     ),
     'C04': dict(
-        gens=dict(quick=g('stream', v1good=200, v1struct=60, v1len=40, v2good=150, v2len=40, mixed=80),
-                  thorough=g('stream', v1good=5000, v1struct=2000, v1len=600, v2good=4000, v2len=2000, mixed=2500)),
+        gens=dict(quick=g('stream', v1good=200, v1struct=60, v1len=40, v2good=150, v2len=40, mixed=80, bigtrail=6),
+                  thorough=g('stream', v1good=5000, v1struct=2000, v1len=600, v2good=4000, v2len=2000, mixed=2500, bigtrail=60)),
         models=[MC_V1, MC_V2, MC_MIXED],
         rule='stream sessions whose header is followed by trailers (application bytes, another header, CR/LF/NUL, a '
              'digit, a TLV); non-trivial = an event after the first accept in the session, or the re-parse of the '
              'reported header alone; distinct = distinct inputs',
     ),
     'C05': dict(
-        gens=dict(quick=g('stream', v1good=250, v1len=40, v2good=200, v2len=40, mixed=80),
-                  thorough=g('stream', v1good=6000, v1len=600, v2good=5000, v2len=2000, mixed=2500)),
+        gens=dict(quick=g('stream', v1good=250, v1len=40, v2good=200, v2len=40, mixed=80) + g('tlv', tlvtrunc=80, tlvrand=40),
+                  thorough=g('stream', v1good=6000, v1len=600, v2good=5000, v2len=2000, mixed=2500) + g('tlv', tlvtrunc=3000, tlvrand=2000)),
         models=[MC_V1, MC_V2, MC_MIXED],
         rule='stream sessions delivered mostly one byte per read, so every proper prefix is a state; non-trivial = the '
              'first accept of a session that visited at least one proper prefix of that header; distinct = distinct headers+splits',
@@ -187,7 +187,7 @@ PROPS = {
         rule='constructor / conversion calls with pairwise distinct arguments; every event is non-trivial',
     ),
     'C20': dict(
-        gens=dict(quick=g('writer', wvals=200, wints=2, wtlv=1, wbig=1, wlimit=10), thorough=g('writer', wvals=8000, wints=60, wtlv=4, wbig=1, wlimit=300)),
+        gens=dict(quick=g('writer', wvals=200, wints=2, wtlv=1, wbig=1, wpersist=30, wlimit=10), thorough=g('writer', wvals=8000, wints=60, wtlv=4, wbig=1, wpersist=900, wlimit=300)),
         models=[MC_WRITER],
         rule='values of every WriteToHeader type written into empty and pre-filled writers; non-trivial = writer at '
              'most 4096 bytes long (well below its limit); distinct = distinct (prefill, value)',
